@@ -39,12 +39,19 @@ def run(chk):
     chk.rule("R05.4", "error constructors are straight-line conversions (shared with C05)")
     _c05t.error_ctors(chk, w)
     from . import c01_absent as _abs
-    _abs.run(chk, w)
+    _abs.run(chk, w, directions=("empty-implies-absent",))   # acceptance by Predictor::new; the other direction only changes scores
     c06.r068(chk, w)
     # "every returned model ... predicts and tags any text without panicking": the bounds obligations of the unchecked code
     # (C18) are necessary conditions of that clause for trained models as for any other model
     from . import c18 as _c18
-    _c18.run(chk)
+    # ... of those, the ones that depend on the MODEL (tables built from it, state vectors filled per prediction); rules about
+    # sentence reuse, text formats or predictor serialisation do not concern "a trained model is usable"
+    with chk.only(rules={"R18.2", "R06.3", "R15.3"}, keys=lambda k: not k.startswith("R18.2:STRPOS:parse") and "R18.2:inventory" not in k):
+        _c18.run(chk)
+    # "can be serialised and re-read": the model file codec (shared with C07)
+    from . import c07 as _c07
+    with chk.only(rules={"R07.1", "R07.2", "R07.3", "R07.7"}):
+        _c07.run(chk)
     for rid, txt in (("R11.1", "no unguarded unwrap of a data-dependent lookup in the trainers"), ("R11.2", "= R06.4 + R09.1"),
                      ("R11.3", "quantisation constants, shared multiplier, non-zero divisor"), ("R11.4", "error discipline in training")):
         chk.rule(rid, txt)
